@@ -1091,6 +1091,19 @@ impl Typer {
             } => {
                 let ty = self.subst_ty(diagnostics, &ty);
                 let expr = Box::new(self.subst(diagnostics, *expr));
+                if matches!(resolution, tast::UnaryResolution::Builtin)
+                    && matches!(op, common_defs::UnaryOp::Neg)
+                    && operand_class_known(&expr.get_ty())
+                    && !is_numeric_ty(&expr.get_ty())
+                {
+                    super::util::push_error(
+                        diagnostics,
+                        format!(
+                            "Operator - expects a numeric operand, found {:?}",
+                            expr.get_ty()
+                        ),
+                    );
+                }
                 tast::Expr::EUnary {
                     op,
                     expr,
@@ -1108,6 +1121,19 @@ impl Typer {
                 let ty = self.subst_ty(diagnostics, &ty);
                 let lhs = Box::new(self.subst(diagnostics, *lhs));
                 let rhs = Box::new(self.subst(diagnostics, *rhs));
+                if matches!(resolution, tast::BinaryResolution::Builtin)
+                    && let Some(expected) = builtin_operand_class(op, &lhs.get_ty())
+                {
+                    super::util::push_error(
+                        diagnostics,
+                        format!(
+                            "Operator {} expects {} operands, found {:?}",
+                            op.symbol(),
+                            expected,
+                            lhs.get_ty()
+                        ),
+                    );
+                }
                 tast::Expr::EBinary {
                     op,
                     lhs,
@@ -1202,5 +1228,47 @@ impl Typer {
                 }
             }
         }
+    }
+}
+
+fn is_numeric_ty(ty: &tast::Ty) -> bool {
+    matches!(
+        ty,
+        tast::Ty::TInt8
+            | tast::Ty::TInt16
+            | tast::Ty::TInt32
+            | tast::Ty::TInt64
+            | tast::Ty::TUint8
+            | tast::Ty::TUint16
+            | tast::Ty::TUint32
+            | tast::Ty::TUint64
+            | tast::Ty::TFloat32
+            | tast::Ty::TFloat64
+    )
+}
+
+fn operand_class_known(ty: &tast::Ty) -> bool {
+    !matches!(ty, tast::Ty::TVar(..) | tast::Ty::TParam { .. })
+}
+
+// Inference only equates the operand and result types of a builtin operator; which class of
+// types the operator is defined on is checked here, once the operand type is known. Returns the
+// expected class when the operand type is outside it.
+fn builtin_operand_class(op: common_defs::BinaryOp, ty: &tast::Ty) -> Option<&'static str> {
+    if !operand_class_known(ty) {
+        return None;
+    }
+    let numeric = is_numeric_ty(ty);
+    let string = matches!(ty, tast::Ty::TString);
+    match op {
+        common_defs::BinaryOp::Add
+        | common_defs::BinaryOp::Less
+        | common_defs::BinaryOp::Greater
+        | common_defs::BinaryOp::LessEq
+        | common_defs::BinaryOp::GreaterEq => (!numeric && !string).then_some("numeric or string"),
+        common_defs::BinaryOp::Sub | common_defs::BinaryOp::Mul | common_defs::BinaryOp::Div => {
+            (!numeric).then_some("numeric")
+        }
+        _ => None,
     }
 }
